@@ -186,7 +186,7 @@ class Models(object):
                      'isscalar', 'clip', 'cumsum', 'mean', 'sort', 'argsort', 'copy', 'meshgrid', 'allclose',
                      'isclose', 'expand_dims', 'broadcast_to', 'array_equal', 'count_nonzero', 'trapz',
                      'nanmedian', 'flip', 'tile', 'repeat', 'unravel_index', 'cumprod', 'take', 'ascontiguousarray',
-                     'column_stack', 'issubdtype', 'polyfit', 'polyval', 'fliplr', 'flipud', 'triu', 'tril', 'copyto'):
+                     'column_stack', 'issubdtype', 'polyfit', 'polyval', 'fliplr', 'flipud', 'triu', 'tril', 'copyto', 'unique'):
             fn = getattr(self, 'np_' + name, None)
             if fn is None:
                 fn = self._unmodelled('np.' + name)
@@ -952,9 +952,46 @@ class Models(object):
     np_argmin = np_nanargmin
     np_argmax = np_nanargmin
 
-    def np_sort(self, a, axis=-1):
-        raise AnalysisError('np.sort needs a rule specific model')
-    np_argsort = np_sort
+    def _ranks(self, a):
+        a = self.np_asarray(a)
+        if a.ndim != 1:
+            raise AnalysisError('sort of a non 1-d array')
+        keys = []
+        for v in a.items():
+            c = ndarr.concrete_real(v)
+            if c is not None:
+                keys.append((0, c))
+                continue
+            r = ndarr._rank_of(v) if isinstance(v, Poly) else None
+            if r is None:
+                raise AnalysisError('np.sort / argsort of symbolic data without an ordering hypothesis')
+            keys.append((1, r))
+        if len({k[0] for k in keys}) > 1:
+            raise AnalysisError('sort of mixed concrete / symbolic data')
+        return a, keys
+
+    def np_argsort(self, a, axis=-1, **kw):
+        a, keys = self._ranks(a)
+        order = sorted(range(len(keys)), key=lambda i: keys[i])
+        return Arr((len(order),), order, kind='i')
+
+    def np_sort(self, a, axis=-1, **kw):
+        a, keys = self._ranks(a)
+        order = sorted(range(len(keys)), key=lambda i: keys[i])
+        items = a.items()
+        return Arr((len(order),), [items[i] for i in order])
+
+    def np_unique(self, a, **kw):
+        if kw:
+            raise AnalysisError('np.unique with options')
+        a, keys = self._ranks(self.np_asarray(a).ravel())
+        seen, out = set(), []
+        items = a.items()
+        for i in sorted(range(len(keys)), key=lambda i: keys[i]):
+            if keys[i] not in seen:
+                seen.add(keys[i])
+                out.append(items[i])
+        return Arr((len(out),), out)
 
     def pinv(self, m, **kw):
         raise AnalysisError('linalg.pinv needs a rule specific model')
